@@ -57,3 +57,32 @@ open MW MW.Model.Ledger MW.Spec.Pending
 theorem cx_refutes : ¬ (cxT ∈ onChainMoved cxE ([] ++ cxChain) ([] ++ cxChain) [cxT] ↔
     cxT ∈ (connFold cxE [] cxChain (discFold cxE [] cxChain ([] ++ cxChain, [cxT]))).2) := by decide
 end MW.Lemmas.PendHist.Compose
+
+namespace MW.Lemmas.PendHist.Compose
+open MW MW.Model.Ledger MW.Spec.Pending
+-- ------------------------------------------------------------------ the SAME coinbase on both branches
+/-  G-B1(C1 pays A1) is reorganised to G-B1x(the SAME coinbase C1)-B2x(C2x, P), P (pending, spends C1:0) and its child T
+    (pending) — AT the fork point.  One-shot: P is confirmed on the new chain, T stays.  Composition (= the model = the
+    implementation, replayed: corpus-candidates/C09-same-coinbase-both-branches.ops, impl = model `-`, spec `T:r`):
+    disconnecting B1 removes C1, P is orphaned and T goes with it.  `NotifyDom.vok` (a candidate on the new chain spends no
+    coinbase of the old branch) excludes exactly this; it is NOT implied by the validity of each branch. -/
+def scC1 : Tx := ⟨"C1", true, [], [⟨"A1", 500, .std⟩]⟩
+def scC2x : Tx := ⟨"C2x", true, [], [⟨"X2", 500, .std⟩]⟩
+def scP : Tx := ⟨"P", false, [⟨"C1", 0, 0⟩], [⟨"A1", 400, .std⟩]⟩
+def scT : Tx := ⟨"T", false, [⟨"P", 0, 0⟩], [⟨"A1", 300, .std⟩]⟩
+def scG : Block := ⟨"G", "", 0, []⟩
+def scOld : List Block := [⟨"B1", "G", 1, [scC1]⟩]
+def scNew : List Block := [⟨"B1x", "G", 1, [scC1]⟩, ⟨"B2x", "B1x", 2, [scC2x, scP]⟩]
+def scE : Env := { own := cxE.own, src := fun id => [scC1, scC2x, scP, scT].find? (fun t => t.id = id) }
+
+theorem sc_same_coinbase :
+    (onChainMoved scE ([scG] ++ scOld) ([scG] ++ scNew) [scP, scT]).map (·.id) = ["T"] ∧
+    (connFold scE [scG] scNew (discFold scE [scG] scOld ([scG] ++ scOld, [scP, scT]))).2.map (·.id) = [] := by decide
+
+/-- so the move is outside `NotifyDom` (the clause is necessary), although `c0` IS the fork point here -/
+theorem sc_not_notifyDom : ¬ NotifyDom scE [scG] scOld scNew [scP, scT] := by
+  intro D
+  have h := notify_compose scE [scG] scOld scNew [scP, scT] D scT
+  revert h
+  decide
+end MW.Lemmas.PendHist.Compose
